@@ -102,8 +102,17 @@ func main() {
 		// dry run of every property on one load; writes no evidence (matrix tools)
 		w, err := kit.Load(*repo, *goos, *goarch, true)
 		if err != nil {
+			// a tree that does not load is undecided for every property (the matrix tools grep these lines)
 			fmt.Fprintln(os.Stderr, "load failed:", err)
-			os.Exit(2)
+			var all []string
+			for id := range rules.Registry {
+				all = append(all, id)
+			}
+			sort.Strings(all)
+			for _, id := range all {
+				fmt.Printf("  UNDECIDED %s.R0 [load] : the repository could not be loaded/type-checked\n", id)
+			}
+			os.Exit(1)
 		}
 		var ids []string
 		for id := range rules.Registry {
